@@ -32,7 +32,13 @@ T1 = datetime.datetime(2012, 3, 4, 5, 6, 7)
 T2 = datetime.datetime(2013, 1, 1, 0, 0, 0, 250000)
 
 REF_REPRS = ["qname", "string", "uri", "record", "identifier"]
+# the reading of T1 at another UTC offset: another instant (and another value) that prints alike up to the offset
+T1_OFFSET = T1.replace(tzinfo=datetime.timezone(datetime.timedelta(hours=5)))
 TIME_REPRS = ["datetime", "iso", "literal"]
+
+
+def time_for(choice):
+    return {"same": T1, "different": T2, "same-reading-other-offset": T1_OFFSET}[choice]
 
 
 def ref_value(doc, local, how, other_ns=False):
@@ -166,7 +172,7 @@ def followups(kind):
     out = []
     for i, fa in enumerate(formals):
         if fa in TIME_ATTRS:
-            for choice in ("same", "different", "unparsable"):
+            for choice in ("same", "different", "same-reading-other-offset", "unparsable"):
                 for rep in TIME_REPRS:
                     if choice == "unparsable" and rep == "datetime":
                         continue
@@ -199,8 +205,8 @@ def apply_followup(doc, rec, model, fu):
         # both values arrive in the same add_attributes invocation
         uri = PROV_URI + fa
         if fa in TIME_ATTRS:
-            v1, v2 = time_value(T1, rep), time_value(T2 if choice == "different" else T1, "datetime")
-            o1, o2 = observe.vobs(T1), observe.vobs(T2 if choice == "different" else T1)
+            v1, v2 = time_value(T1, rep), time_value(time_for(choice), "datetime")
+            o1, o2 = observe.vobs(T1), observe.vobs(time_for(choice))
         else:
             l2 = ("w%d" if choice == "different" else "v%d") % i
             v1, v2 = ref_value(doc, "v%d" % i, rep), ref_value(doc, l2, "qname")
@@ -238,12 +244,7 @@ def apply_followup(doc, rec, model, fu):
         return expected, (lambda: rec.add_attributes([(PROV["collection"], "ex:v0"), (PROV[fa], val)])), new_model
     uri = PROV_URI + fa
     if fa in TIME_ATTRS:
-        if choice == "same":
-            t = T1
-        elif choice == "different":
-            t = T2
-        else:
-            t = None
+        t = None if choice == "unparsable" else time_for(choice)
         val = time_value(t, rep) if t is not None else (
             Literal("not a date", XSD["dateTime"]) if rep == "literal" else "not a date")
         vo = None if t is None else observe.vobs(t)
